@@ -4,6 +4,8 @@
 # sub-agent wrote the demo for (/tmp/wt/<Cnn>), with or without the seed's patch; removes the worktree.
 N=$1; MODE=$2; ID=$(python3 -c "import json;print(json.load(open('/verif/seeded/$N/meta.json'))['property'])")
 W=/tmp/wt/$ID; mkdir -p /tmp/wt
+# never destroy a sub-agent's unfiled deliverables
+if [ -d "$W/_out/a" ] || [ -d "$W/_out/b" ]; then echo "refusing: $W holds unfiled agent output (_out/a|b); file it with tools/verify_seed.sh first" >&2; exit 5; fi
 [ -e "$W" ] && { git -C /repo worktree remove --force "$W" 2>/dev/null; rm -rf "$W"; }
 git -C /repo worktree add -q --detach "$W" HEAD || exit 3
 if [ "$MODE" = patched ]; then (cd "$W" && git apply /verif/seeded/$N/patch.diff) || { git -C /repo worktree remove --force "$W"; echo NOAPPLY; exit 4; }; fi
